@@ -43,20 +43,32 @@ impl<'a> BerDecoder<'a> for SnmpReal {
 
                 // 8.5.7.4 Bits 2 to 1 of the first contents octet
                 // shall encode the format of the exponent as follows:
-                let ln = (f & 0x03) as usize + 2;
-                if i.len() < ln {
+                let (es, ln) = match f & 0x03 {
+                    // 11: the second contents octet holds the number of exponent octets
+                    0x03 => {
+                        if i.len() < 2 {
+                            return Err(SnmpError::InvalidData);
+                        }
+                        (2, 2 + i[1] as usize)
+                    }
+                    // 00, 01, 10: one, two or three exponent octets
+                    n => (1, n as usize + 2),
+                };
+                if i.len() < ln || ln == es || ln - es > 4 {
                     return Err(SnmpError::InvalidData);
                 }
-                let e = SnmpReal::parse_u32(&i[1..ln]) as i32;
-                let mut v: f64 = SnmpReal::parse_u32(&i[ln..]).into();
+                // 8.5.7.4: the exponent is a two's complement binary number
+                let e = SnmpReal::parse_i32(&i[es..ln]);
+                // 8.5.7.5: the remaining contents octets are N, an unsigned binary integer
+                let mut v: f64 = i[ln..].iter().fold(0.0, |acc, &n| acc * 256.0 + n as f64);
                 // 8.5.7.3: Bits 4 to 3 of the first contents octet shall
                 // encode the value of the binary scaling factor F
                 // as an unsigned binary integer.
                 match (f & 0x0c) >> 2 {
+                    0 => {}
                     1 => v *= 2.0,
                     2 => v *= 4.0,
-                    3 => v *= 8.0,
-                    _ => return Err(SnmpError::InvalidData),
+                    _ => v *= 8.0,
                 }
                 // 8.5.7.2: Bits 6 to 5 of the first contents octets
                 // shall encode the value of the base B' as follows:
@@ -71,7 +83,9 @@ impl<'a> BerDecoder<'a> for SnmpReal {
                     0x20 => 16.0,
                     _ => return Err(SnmpError::InvalidData),
                 };
-                v *= base.powi(e);
+                if v != 0.0 {
+                    v *= base.powi(e);
+                }
                 // 8.5.7.1: Bit 7 of the first contents octets
                 // shall be 1 if S is –1 and 0 otherwise.
                 if f & 0x40 == 0x40 {
@@ -117,10 +131,11 @@ impl<'a> BerDecoder<'a> for SnmpReal {
 }
 
 impl SnmpReal {
-    fn parse_u32(i: &[u8]) -> u32 {
-        let mut v = 0u32;
+    // Two's complement of 1 to 4 octets
+    fn parse_i32(i: &[u8]) -> i32 {
+        let mut v: i32 = if i[0] & 0x80 == 0 { 0 } else { -1 };
         for &n in i.iter() {
-            v = (v << 8) | (n as u32);
+            v = (v << 8) | (n as i32);
         }
         v
     }
